@@ -7,7 +7,7 @@ From Fibre Require Import Common.Base Common.Conc Chan.TicketK3 Proofs.TicketK3B
    tickets below its cursor, ascending (hence a prefix of the accepted payloads in ticket order) *)
 Theorem C02_k3ticket_ticket_order :
   forall cap cc n kk np pp cp sch, 0 < cc -> 0 < n ->
-  let s := fst (run (sys cap cc n kk np pp cp) (init np pp cp) sch) in
+  let s := fst (Conc.run (sys cap cc n kk np pp cp) (init np pp cp) sch) in
   received s = vals_in s 0 (rpos s).
 Proof.
   intros cap cc n kk np pp cp sch Hcc Hn s. apply (received_by_ticket cap cc n kk np Hcc Hn pp cp). exists sch. reflexivity.
@@ -16,7 +16,7 @@ Qed.
 (* per-producer FIFO: two payloads of the same producer are received in the order of its calls *)
 Theorem C02_k3ticket_fifo_received :
   forall cap cc n kk np pp cp sch l1 th k1 l2 k2 l3, 0 < cc -> 0 < n ->
-  let s := fst (run (sys cap cc n kk np pp cp) (init np pp cp) sch) in
+  let s := fst (Conc.run (sys cap cc n kk np pp cp) (init np pp cp) sch) in
   received s = l1 ++ (th, k1) :: l2 ++ (th, k2) :: l3 -> k1 < k2.
 Proof.
   intros cap cc n kk np pp cp sch l1 th k1 l2 k2 l3 Hcc Hn s. apply (received_per_producer_fifo cap cc n kk np Hcc Hn pp cp). exists sch. reflexivity.
@@ -24,7 +24,7 @@ Qed.
 
 Theorem C02_k3ticket_fifo_accepted :
   forall cap cc n kk np pp cp sch l1 th k1 l2 k2 l3, 0 < cc -> 0 < n ->
-  let s := fst (run (sys cap cc n kk np pp cp) (init np pp cp) sch) in
+  let s := fst (Conc.run (sys cap cc n kk np pp cp) (init np pp cp) sch) in
   accepted s = l1 ++ (th, k1) :: l2 ++ (th, k2) :: l3 -> k1 < k2.
 Proof.
   intros cap cc n kk np pp cp sch l1 th k1 l2 k2 l3 Hcc Hn s. apply (accepted_per_producer_fifo cap cc n kk np Hcc Hn pp cp). exists sch. reflexivity.
@@ -33,8 +33,8 @@ Qed.
 (* a thread's successive tickets increase, and carry its op numbers in increasing order *)
 Theorem C02_k3ticket_tickets_increase :
   forall cap cc n kk np pp cp sch th, 0 < cc -> 0 < n ->
-  let s := fst (run (sys cap cc n kk np pp cp) (init np pp cp) sch) in
-  (forall t t2 k, tk s t = TSet (th, k) -> own_of (ppc s th) = Some t2 -> t < t2) /\
+  let s := fst (Conc.run (sys cap cc n kk np pp cp) (init np pp cp) sch) in
+  (forall t t2 k, tk s t = TSet (th, k) -> owns (ppc s th) t2 -> t < t2) /\
   (forall t1 t2 k1 k2, tk s t1 = TSet (th, k1) -> tk s t2 = TSet (th, k2) -> t1 < t2 -> k1 < k2).
 Proof.
   intros cap cc n kk np pp cp sch th Hcc Hn s. apply (producer_tickets_increase cap cc n kk np Hcc Hn pp cp). exists sch. reflexivity.
